@@ -83,7 +83,10 @@ func c06Gate(frames int, withOther bool) {
 		id := uint32(10 + i)
 		var payload []byte
 		accepted := false
-		if sym.Bool("structured") {
+		if i > 0 {
+			// later frames: any header, no payload (the first frame carries the arbitrary payload; two
+			// arbitrary payloads in a row are the inductive step's business, and cost its square)
+		} else if sym.Bool("structured") {
 			var m CapabilityMap
 			m, accepted = zzSymCapMap(auth, sym.Choose("entries", 3))
 			payload = zzCapPayload(m)
